@@ -18,7 +18,7 @@ from hypothesis import strategies as st
 from vlib import gen, nx
 from vlib.run import EngineError, Verdict, engine
 
-HEIGHTS = [1, 2, 3, 4, 8, 16, 127, 128, 129, 255, 256, 257, 300, 512]
+HEIGHTS = [1, 2, 3, 4, 5, 6, 7, 8, 9, 16, 17, 127, 128, 129, 255, 256, 257, 300, 512]
 
 
 def stack_problem(case):
@@ -51,8 +51,13 @@ def take(pc, cfg, height, m):
 
 
 def depth_needed(case):
-    per = 2 if case["cfg"]["dom"] in ("mid", "min_cost") else 1
-    return per * sum(hi - lo for lo, hi in case["doms"])
+    """Stack levels of the first descent (the deepest point of an enumeration in these free problems)."""
+    dom = case["cfg"]["dom"]
+    d = 0
+    for lo, hi in case["doms"]:
+        w = hi - lo
+        d += (2 if w >= 2 else 1) if dom in ("mid", "min_cost") else (1 if w <= 1 else 2) if dom == "split_low" else 1
+    return d
 
 
 def check_stack(case):
@@ -61,7 +66,7 @@ def check_stack(case):
     need = depth_needed(case)
     tags = ["height:%d" % H, "dom:" + cfg["dom"], "cons:" + cfg["cons"], "need-vs-height:%s" % ("far-below" if need < H - 3 else "near" if need <= H + 3 else "beyond")]
     nt = need >= H - 3
-    ample = 2 * need + 64
+    ample = 4 * sum(hi - lo for lo, hi in case["doms"]) + 64
     try:
         ref, ref_stats, ref_exh = engine(take, pc, cfg, ample, m)
     except EngineError as e:
@@ -70,6 +75,10 @@ def check_stack(case):
         got, stats, exh = engine(take, pc, cfg, H, m)
     except EngineError as e:
         tags.append("outcome:raised")
+        if e.bucket.startswith("IndexError"):
+            # not a capacity error: the engine tried to index outside its stacks and only NumPy's bounds check (absent from
+            # the compiled engine) stopped it
+            return Verdict(False, "the engine indexes outside its stacks (%s): under compilation this write corrupts memory silently [%d domains, widest %d, %s/%s/%s, stack_max_height=%d]" % (e.bucket, len(case["doms"]), max(hi - lo + 1 for lo, hi in case["doms"]), cfg["cons"], cfg["var"], cfg["dom"], H), nt, tags)
         return Verdict(True, "", nt, tags)
     tags.append("outcome:completed")
     where = "[%d domains, widest %d, %s/%s/%s, stack_max_height=%d, first %d solutions]" % (len(case["doms"]), max(hi - lo + 1 for lo, hi in case["doms"]), cfg["cons"], cfg["var"], cfg["dom"], H, m)
@@ -98,7 +107,13 @@ def stack_case(draw, tier):
     while depth < target and len(doms) < 600:
         w = 1 if shape == "bool" else 2 if shape == "w3" else draw(st.integers(1, 3))
         doms.append([0, w])
-        depth += per * w
+        # stack levels the first descent spends on this domain
+        if cfg["dom"] == "mid":
+            depth += 2 if w >= 2 else 1
+        elif cfg["dom"] == "split_low":
+            depth += 1 if w == 1 else 2
+        else:
+            depth += 1
     cons = draw(st.sampled_from(["none", "none", "leq", "lex", "dummy"]))
     return {"kind": "stack", "doms": doms, "cons": cons, "height": H, "cfg": cfg, "m": draw(st.sampled_from([1, 2, 3, 5]))}
 
@@ -258,13 +273,13 @@ META = {
     "assumptions": ["domain *values* beyond 32 bits are outside the documented contract and not generated"],
 }
 REPLAY_MODE = "J"
-EXAMPLES = {"quick": (250, 120), "thorough": (2500, 1200)}
+EXAMPLES = {"quick": (250, 250), "thorough": (2500, 2500)}
 
 
 def jobs(tier):
     return [
         {"name": "stack-J", "mode": "J", "shards": 10, "case_timeout": 120, "crash_is_verdict": True},
-        {"name": "stack-I", "mode": "I", "shards": 4, "case_timeout": 900},
+        {"name": "stack-I", "mode": "I", "shards": 6, "case_timeout": 900},
         {"name": "size-J", "mode": "J", "shards": 2, "case_timeout": 600, "crash_is_verdict": True},
         {"name": "deep-J", "mode": "J", "shards": 2, "case_timeout": 600, "crash_is_verdict": True},
         {"name": "deep-I", "mode": "I", "shards": 4, "case_timeout": 900},
